@@ -476,6 +476,7 @@ func (r *yieldRewriter) rewriteSwitchStmt(
 			x,
 			body,
 		)
+		children = r.combineIfNecessary(children) // for init containing yield, e.g. YieldFrom
 		children.push(switchStmt, kindTrival)
 		return children
 	}
